@@ -89,11 +89,16 @@ fn run_newline(case: &Value, r: &RunCtx) -> Outcome {
             }
         };
     }
-    // --check: read-only, exit status tells exactly whether the bytes differ
+    // --check: read-only (also when a backup is asked for), exit status tells exactly whether
+    // the bytes differ
+    let backup = case["backup"].as_bool().unwrap_or(false);
     let d = fresh("check");
-    let (code, out, err) = run!(&d, &args(&["--check"]));
+    let (code, out, err) = run!(&d, &args(if backup { &["--check", "--backup"] } else { &["--check"] }));
     if std::fs::read(d.join("lib.rs")).ok().as_deref() != Some(on_disk.as_bytes()) {
         return fail("check-wrote", "--check changed the file".into());
+    }
+    if d.join("lib.bk").exists() {
+        return fail("check-wrote-backup", "--check left a backup file".into());
     }
     if differs && code != Some(1) {
         return fail("check-missed-difference", format!("--check exits with {code:?} although the file differs from the bytes rustfmt would write\nstdout: {out}\nstderr: {err}"));
@@ -109,14 +114,16 @@ fn run_newline(case: &Value, r: &RunCtx) -> Outcome {
     }
     // --emit stdout prints the expected bytes
     let d = fresh("stdout");
-    let (_c, out, _e) = run!(&d, &args(&["--emit", "stdout", "--quiet"]));
+    let (_c, out, _e) = run!(&d, &args(if backup { &["--emit", "stdout", "--quiet", "--backup"] } else { &["--emit", "stdout", "--quiet"] }));
+    if std::fs::read(d.join("lib.rs")).ok().as_deref() != Some(on_disk.as_bytes()) || d.join("lib.bk").exists() {
+        return fail("stdout-wrote", "--emit stdout changed the file or left a backup".into());
+    }
     let printed = out.splitn(2, ":\n\n").nth(1).unwrap_or(&out).to_string();
     if printed != want {
         return fail("stdout-disagrees", format!("--emit stdout prints {printed:?}"));
     }
     // files mode writes exactly the expected bytes (and only then touches the file)
     let d = fresh("files");
-    let backup = case["backup"].as_bool().unwrap_or(false);
     let (code, _o, err) = run!(&d, &args(if backup { &["--backup"] } else { &[] }));
     let after = std::fs::read(d.join("lib.rs")).unwrap_or_default();
     if code != Some(0) {
